@@ -81,6 +81,10 @@ Definition all_pairs (g : graph) : list (node * node) :=
 Definition is_fetch (e : event) : bool := match e with Fetch _ _ => true | _ => false end.
 Definition fetches (p : node * node) (e : event) : bool :=
   match e with Fetch i j => pair_eqb p (i, j) | _ => false end.
+(* advertisement transfers, atomic (Fetch) or of an advertisement generated earlier (Deliver) *)
+Definition is_xfer (e : event) : bool := match e with Fetch _ _ | Deliver _ _ _ => true | _ => false end.
+Definition xfers (p : node * node) (e : event) : bool :=
+  match e with Fetch i j | Deliver i j _ => pair_eqb p (i, j) | _ => false end.
 
 (* a round: only Fetch events, and every ordered adjacent pair occurs at least once *)
 Definition is_round (g : graph) (evs : list event) : bool :=
